@@ -139,3 +139,21 @@ def run(ctx):
         ok = sec in ('cawg_trust', 'core', 'verify') and not (sec != 'cawg_trust' and re.search(r'anchor|allowed_list|trust_config', fld))
         ctx.ob('C33-D4', fnn, 'reads settings.%s.%s' % (sec, fld), 'identity validation takes trust material from settings.cawg_trust.* only', ok,
                detail='' if ok else 'CAWG identity validation reads C2PA trust settings settings.%s.%s instead of settings.cawg_trust' % (sec, fld))
+
+    # ---- D5 one code, one kind: CAWG status codes are not in the core code table, so their kind is taken from the sibling sites -- a code that is
+    # logged as a failure at one site of the identity module must not be logged as informational/success at another (a downgraded failure validates)
+    import collections as _c
+    bycode = _c.defaultdict(lambda: _c.defaultdict(list))
+    for n2 in prog.fns():
+        if 'identity' not in n2:
+            continue
+        f2 = prog.fn(n2)
+        for s_ in logs.log_sites(prog, f2, consts):
+            for k_, v_ in s_['codes']:
+                if k_ == 'str':
+                    bycode[v_][s_['kind']].append((n2, s_['bi']))
+    ctx.floor('status codes logged by the identity module', len(bycode), 15, rule='C33-D5')
+    for code, kinds in sorted(bycode.items()):
+        ctx.ob('C33-D5', 'identity', 'status code ' + code, 'logged with one kind at every site', len(kinds) == 1,
+               detail='' if len(kinds) == 1 else 'logged as %s' % {k: sorted(set(x[0].split('::')[-1] for x in v))[:3] for k, v in kinds.items()})
+
